@@ -25,12 +25,22 @@
              <in xyz> <out xyz> (edge lock) ; <in xyz> <out xyz> (channel lock) ; <pos xyz> <gains...> , ... (extent pan calls)
                                           out: ok <direct...> | <diffuse...>  |  rejected (positionOffset leaves the range)
                                                | miss (a recorded call is not where the pipeline of the model puts it)
+        concrete <C|P> <layout name> ; <a> <b> <c> ; <offset a b c | none> ; <value|none> <azimuthRange|none> <positionRange|none> <v2 0/1> ;
+             <bg> <og> <mute 0/1> <diffuse> ; <screenRef 0/1> <refscreen polar 0/1> <aspect> <c1> <c2> <c3> <width> ;
+             <edge horizontal n|l|r> <edge vertical n|t|b> ; <zone> , <zone> ... | none   (zone = c minX maxX minY maxY minZ maxZ
+             | p minAz maxAz minEl maxEl) ; <lock: none | nomax | maxDistance>
+                                          out: ok <direct...> | <diffuse...>  |  none    (renderConcreteCart / renderConcretePolarPoint:
+                                               nothing captured; layout data from Gen/C01_Tables, C05_Tables, C19_Tables)
         alloext <p> <mu> <s_eff> ; <ch> , <ch> ...    (a channel = fx fy fz bLeft bRight bFront bBack bCeil bFloor gPoint)
                                           out: ok <gains...>                    (allo_extent.get_gains after the weights)
         allo <n> <x> <y> <z> ; <plane> , <plane> ...     (rows of a plane separated by `/`, a leaf = <idx> <x> <y> <z>)
                                           out: ok <gains...>  |  assert          (AllocentricPanner.handle)
    `bad-op` for a malformed line. -/
 import Earverif.Model.GainCalc
+import Earverif.Model.GainCalcConcrete
+import Earverif.Gen.C01_Tables
+import Earverif.Gen.C05_Tables
+import Earverif.Gen.C19_Tables
 import Earverif.Driver.Util
 open Earverif.GainCalc Earverif.Driver
 
@@ -158,6 +168,79 @@ def answerFull (kind : String) (secs : List String) : String :=
     | _, _, _, _, _, _, _, _, _, _, _ => "bad-op"
   | _ => "bad-op"
 
+def convParams : Earverif.Conv.Params Float :=
+  Earverif.Conv.Params.ofTable Earverif.Gen.C19.mapping Earverif.Gen.C19.elTop Earverif.Gen.C19.elTopTilde 4096
+
+def parseZone (s : String) : Option (Earverif.Zone.Zone Float) :=
+  match words s with
+  | "c" :: rest =>
+    match rest.mapM parseF with
+    | some [a, b, c, d, e, f] => some (.cart a b c d e f)
+    | _ => none
+  | "p" :: rest =>
+    match rest.mapM parseF with
+    | some [a, b, c, d] => some (.polar a b c d)
+    | _ => none
+  | _ => none
+
+def answerConcrete (kind : String) (name : String) (secs : List String) : String :=
+  match secs with
+  | [coords, off, dv, gains, scr, edge, zones, lock] =>
+    let offset : Option (Option (V3 Float)) :=
+      if words off == ["none"] then some none
+      else match parseFs off with
+        | some [a, b, c] => some (some (a, b, c))
+        | _ => none
+    let dvp : Option (Option Float × Option Float × Option Float × Bool) :=
+      match words dv with
+      | [v, ar, pr, v2] =>
+        match parseOpt v, parseOpt ar, parseOpt pr with
+        | some v, some ar, some pr => if v2 == "0" then some (v, ar, pr, false) else if v2 == "1" then some (v, ar, pr, true) else none
+        | _, _, _ => none
+      | _ => none
+    let scrp : Option (Bool × ScreenSpec Float) :=
+      match words scr with
+      | [sr, pol, a, c1, c2, c3, w] =>
+        match [a, c1, c2, c3, w].mapM parseF with
+        | some [a, c1, c2, c3, w] =>
+          if (sr == "0" || sr == "1") && (pol == "0" || pol == "1") then some (sr == "1", ⟨pol == "1", a, (c1, c2, c3), w⟩) else none
+        | _ => none
+      | _ => none
+    let edgep : Option EdgeSel :=
+      match words edge with
+      | [h, v] =>
+        let hh : Option (Option Bool) := if h == "n" then some none else if h == "l" then some (some true) else if h == "r" then some (some false) else none
+        let vv : Option (Option Bool) := if v == "n" then some none else if v == "t" then some (some true) else if v == "b" then some (some false) else none
+        match hh, vv with
+        | some hh, some vv => some ⟨hh, vv⟩
+        | _, _ => none
+      | _ => none
+    let zonesp : Option (List (Earverif.Zone.Zone Float)) :=
+      if words zones == ["none"] then some [] else (zones.splitOn ",").mapM parseZone
+    let lockp : Option (Option (Option Float)) :=
+      match words lock with
+      | ["none"] => some none
+      | ["nomax"] => some (some none)
+      | [m] => (parseF m).map fun m => some (some m)
+      | _ => none
+    match parseFs coords, offset, dvp, parseFs gains, scrp, edgep, zonesp, lockp,
+        Earverif.Gen.C01.layouts.find? (·.name == name) with
+    | some [a, b, c], some offset, some (v, ar, pr, v2), some [bg, og, mute, diffuse], some (screenRef, refScreen),
+        some edge, some zones, some lock, some T =>
+      if !(mute == 0.0 || mute == 1.0) || !(kind == "C" || kind == "P") then "bad-op" else
+      let E : LayoutEnv Float := T.env 4096
+      let blk : CBlock Float :=
+        ⟨⟨kind == "C", (a, b, c), offset, v, ar, pr, v2, bg, diffuse, og, mute == 1.0⟩, screenRef, refScreen, edge, zones, lock⟩
+      let r := if kind == "C" then renderConcreteCart E convParams blk
+        else match Earverif.Gen.C05.layouts.find? (·.name == name) with
+          | some L => renderConcretePolarPoint E convParams L blk
+          | none => none
+      match r with
+      | some r => showPair r
+      | none => "none"
+    | _, _, _, _, _, _, _, _, _ => "bad-op"
+  | _ => "bad-op"
+
 def answer (line : String) : String :=
   match line.splitOn ";" with
   | [] => "bad-op"
@@ -165,6 +248,7 @@ def answer (line : String) : String :=
     match words hd, secs with
     | ["render", kind], _ => answerRender kind secs
     | ["full", kind], _ => answerFull kind secs
+    | ["concrete", kind, name], _ => answerConcrete kind name secs
     | ["extmod", e, d], [] =>
       match parseF e, parseF d with
       | some e, some d => s!"ok {showF (extentMod e d)}"
